@@ -568,6 +568,15 @@ def t6(rep, src):
             visit(ch, c)
 
     visit(arg, "top")
+    # the VALUE of the entry is the synthetic path; its KEY is the protected table's own path: `get_key_value(k)` must be read through `.1`, never `.0`
+    for x in walk(arg):
+        if x["k"] == "mcall" and x["m"] == "get_key_value" and "synthetic_paths" in show(x["recv"], 0):
+            proj = [y for y in walk(arg) if y["k"] == "field" and y["name"] in ("0", "1") and any(z is x for z in walk(y["e"]))]
+            keys_used = [y for y in proj if y["name"] == "0"]
+            if keys_used or not proj:
+                bad.append("the path is the KEY of the synthetic-paths entry (the protected table's own path), not its value")
+        if x["k"] == "mcall" and x["m"] in ("keys", "into_keys") and "synthetic_paths" in show(x["recv"], 0):
+            bad.append("the path is taken from the keys of synthetic_paths (the protected tables' own paths)")
     # names bound earlier from the table's path would hide the flow: resolve one level of lets
     rep.instance("T6", "SyntheticData::table@path", {"path_argument": show(arg, 200), "lookups": lookups, "problems": bad})
     if lookups == 0:
